@@ -194,8 +194,9 @@ func (ps *posSource) randomMaterial() string {
 	if r.Intn(12) == 0 {
 		// maximal legal material for one side (nine queens, two rooks, bishops, knights) against little
 		side := r.Bool()
+		skip := []int{1000, 16, 8}[r.Intn(3)]
 		for _, pc := range "QQQQQQQQQRRBBNN" {
-			if r.Intn(8) == 0 {
+			if r.Intn(skip) == 0 {
 				continue
 			}
 			for tries := 0; tries < 20; tries++ {
